@@ -1447,11 +1447,11 @@ def total_iterations(P, f, insts):
         if L.header in seen:
             continue
         seen.add(L.header)
-        hg = [g for g in L.guards() if g.block is L.header]
-        N = L.count_for(hg[0])[0] if len(hg) == 1 else None
-        if N is None:
+        cands = [(L.count_for(g), g) for g in L.guards()]
+        cands = [(n_, rot_, g) for (n_, rot_), g in cands if n_ is not None and (not rot_ or L.entry_positive(n_))]
+        if len({str(c_[0]) for c_ in cands}) != 1:
             return None
-        tot = tot + N
+        tot = tot + cands[0][0]
     return tot
 
 def is_k_plus_m_poly(p):
